@@ -4,7 +4,7 @@
    for every expression tree of any size.  Declarations and statements are decided by the round-trip search. *)
 From Coq Require Import List NArith Bool Arith.
 From Verif Require Import Base.Res Gen.GenTokens Model.Lexer Model.ExprParser Proofs.ExprParserProofs Proofs.ExprInstance.
-From Verif Require Model.StParser Model.StInstance Model.StRender Proofs.StExprProofs Proofs.StStmtProofs Proofs.StInstanceProofs Proofs.StRenderProofs Model.DeclParser Proofs.DeclProofs Proofs.DeclRenderProofs Proofs.LibProofs Model.LibRender Proofs.LibRenderProofs Proofs.LexSpell Proofs.TextRoundTrip Model.Literals Model.TimeRender Proofs.TimeRenderProofs Model.DurRender Proofs.DurRenderProofs Proofs.LitProofs.
+From Verif Require Model.StParser Model.StInstance Model.StRender Proofs.StExprProofs Proofs.StStmtProofs Proofs.StInstanceProofs Proofs.StRenderProofs Model.DeclParser Proofs.DeclProofs Proofs.DeclRenderProofs Proofs.LibProofs Model.LibRender Proofs.LibRenderProofs Proofs.LexSpell Proofs.TextRoundTrip Model.Literals Model.TimeRender Proofs.TimeRenderProofs Model.DurRender Proofs.DurRenderProofs Proofs.LitProofs Proofs.TodExact.
 Import ListNotations.
 Close Scope N_scope.
 Open Scope nat_scope.
@@ -175,3 +175,10 @@ Theorem C10_milliseconds_read_back : forall ds : list N, Forall (fun x => x < 10
   DurRender.read_milliseconds (LitProofs.digits_text ds) =
   Some (LitProofs.horner 10 ds / 1000, (LitProofs.horner 10 ds mod 1000) * 1000000)%N.
 Proof. exact DurRenderProofs.milliseconds_read. Qed.
+
+(* The library keeps nanoseconds, the renderer writes hmsm() = as_hms_micro(), i.e. nanos / 1000: what is read back is the STORED
+   time exactly when it has no part finer than a microsecond.  Both directions: the recorded finding
+   render-fractional-time-values is, for times of day, precisely the times with nanos mod 1000 <> 0. *)
+Theorem C10_stored_time_round_trip_iff : forall h m sec nanos : N, (h < 24)%N -> (m < 60)%N -> (sec < 60)%N -> (nanos < 1000000000)%N ->
+  (TimeRender.read_back h m sec (nanos / 1000) = Some (h, m, sec, nanos) <-> (nanos mod 1000 = 0)%N).
+Proof. exact TodExact.stored_time_round_trip_iff. Qed.
